@@ -542,4 +542,34 @@ def r8(ctx):
     c01.r6(sub)
 
 
-RULES = [("C02.R1", r1), ("C02.R2", r2), ("C02.R3", r3), ("C02.R4", r4), ("C02.R5", r5), ("C02.R6", r_idioms), ("C02.R7", r7), ("C02.R8", r8)]
+def r9(ctx):
+    """one ephemeral key per connection object: `session_key` (the private half whose public half travels in the hello, and which
+    the ECDH on the answer uses) is written by the two constructors only.  A key that is regenerated when a hello is sent again
+    makes the client derive, from the server's answer to the *first* hello, a session key the server does not hold: both sides
+    consider themselves half-way connected under different keys."""
+    writers = []
+    for f in ctx.repo.funcs.values():
+        if f.is_lambda or f.module.name not in ("connection", "client", "server", "context"):
+            continue
+        for n in walk_own(f.node):
+            tg = n.targets if isinstance(n, ast.Assign) else [n.target] if isinstance(n, (ast.AugAssign, ast.AnnAssign)) else []
+            for t in tg:
+                for x in ast.walk(t):
+                    if isinstance(x, ast.Attribute) and x.attr == "session_key" and isinstance(x.ctx, ast.Store):
+                        writers.append((f.qual, norm(n.value) if getattr(n, "value", None) is not None else ""))
+        for c in walk_own(f.node):
+            if isinstance(c, ast.Call) and isinstance(c.func, ast.Name) and c.func.id == "setattr" and len(c.args) >= 2 and isinstance(c.args[1], ast.Constant) and c.args[1].value == "session_key":
+                writers.append((f.qual, "setattr"))
+    want = {"connection:ClientServerConnection.__init__", "connection:ServerClientConnection.__init__"}
+    ctx.check({w[0] for w in writers} == want and all(w[1] == "EllipticCurvePrivateKey.new()" for w in writers), "C02.R9", ctx.fn("connection:ClientServerConnection.__init__"),
+              "the ephemeral key pair of a connection is generated once, in its constructor", "both sides derive the session key from the key pair whose public half was sent", witness=sorted(writers))
+    # ... and the hello carries the public half of exactly that key, the ECDH uses its private half
+    sh = ctx.fn("connection:ClientServerConnection._sendClientHello")
+    pub = [n for n in walk_own(sh.node) if isinstance(n, ast.Assign) and norm(n.targets[0]).endswith(".client_pubkey")]
+    ctx.check(len(pub) == 1 and norm(pub[0].value) == "self.session_key.getPublicKey()", "C02.R9", sh, "the client hello carries the public half of self.session_key", witness=[norm(p_) for p_ in pub])
+
+
+EXPLANATION = EXPLANATION + (" (R9) the ephemeral key pair of a connection is generated once, in its constructor, and the client hello carries its public half: a key "
+                             "regenerated for a re-sent hello makes the client derive a key the server does not hold from the answer to the first hello.")
+
+RULES = [("C02.R1", r1), ("C02.R2", r2), ("C02.R3", r3), ("C02.R4", r4), ("C02.R5", r5), ("C02.R6", r_idioms), ("C02.R7", r7), ("C02.R8", r8), ("C02.R9", r9)]
